@@ -44,10 +44,12 @@ type Op struct {
 }
 
 type Plan struct {
-	BufSize  int  `json:"bufsize"`
-	NClients int  `json:"nclients"`
-	NInproc  int  `json:"ninproc,omitempty"`
-	Ops      []Op `json:"ops"`
+	BufSize  int   `json:"bufsize"`
+	NClients int   `json:"nclients"`
+	NInproc  int   `json:"ninproc,omitempty"`
+	Ops      []Op  `json:"ops"`
+	Seg      []int `json:"seg,omitempty"`   // transport: inbound bytes reach the broker in pieces of these sizes (cyclic)
+	Reset    bool  `json:"reset,omitempty"` // transport: the end of a client's stream is a connection reset, not io.EOF
 }
 
 // payload builds the message body: the first bytes name the message, the
@@ -1229,6 +1231,13 @@ func runPlan(p Plan, known func(string) bool) outcome {
 	}
 	e := &exec{p: p, b: b, spec: newModel(specMatcher{}), vari: newModel(emptyLevelMatcher{}), conns: make([]*fix.Conn, p.NClients),
 		known: known, hits: map[string]int{}, cls: map[string]bool{}}
+	b.Seg, b.Reset = p.Seg, p.Reset
+	if len(p.Seg) > 0 {
+		e.cls["segmented"] = true
+	}
+	if p.Reset {
+		e.cls["reset"] = true
+	}
 	for i := 0; i < p.NInproc; i++ {
 		s := &inprocSub{}
 		s.fn = func(m *message.PublishMessage) error {
